@@ -412,3 +412,74 @@ pub fn find_fail(o: &Opts) {
         }
     }
 }
+
+/// spec -> impl: replay behaviours generated by TLC from MC_Codec (blocks K = (2, 1), T = 1; packets named by
+/// (SBN, ESI)) on real decoders and compare, after every call, the reconstructed flags and the answer.
+pub fn replay(o: &Opts) {
+    use std::io::BufRead;
+    crate::util::quiet_panics();
+    let input = std::io::BufReader::new(std::fs::File::open(o.str("in", "behaviours.ndjson")).unwrap());
+    let mut out = Trace::create(&o.str("out", "results.ndjson"));
+    let data: Vec<u8> = vec![0xA7, 0x3C, 0x5E];
+    let oti = Oti::new(3, 1, 2, 1, 1);
+    let enc = Encoder::new(&data, oti);
+    let ks = [2u32, 1u32];
+    let packet = |b: usize, esi: u32| -> EncodingPacket {
+        let be = &enc.get_block_encoders()[b];
+        if esi < ks[b] { be.source_packets()[esi as usize].clone() } else { be.repair_packets(esi - ks[b], 1).pop().unwrap() }
+    };
+    let (mut n, mut bad, mut steps) = (0, 0, 0);
+    for line in input.lines() {
+        let line = line.unwrap();
+        if line.trim().is_empty() {
+            continue;
+        }
+        let c: Value = serde_json::from_str(&line).unwrap();
+        n += 1;
+        let mut decs: std::collections::HashMap<u64, Decoder> = Default::default();
+        decs.insert(1, Decoder::new(oti));
+        let mut mism: Vec<String> = vec![];
+        for (i, st) in c["steps"].as_array().unwrap().iter().enumerate() {
+            steps += 1;
+            let d = st["dec"].as_u64().unwrap();
+            if st["op"] == "clone" {
+                let cl = decs[&d].clone();
+                decs.insert(st["to"].as_u64().unwrap(), cl);
+                continue;
+            }
+            let (b, e) = (st["sbn"].as_u64().unwrap() as usize, st["esi"].as_u64().unwrap() as u32);
+            let dec = decs.get_mut(&d).unwrap();
+            let r = catch(AssertUnwindSafe(|| {
+                let ans = dec.decode(packet(b, e));
+                (ans, dec.verif_blocks_done())
+            }));
+            match r {
+                Ok((ans, done)) => {
+                    let want_memo: Vec<bool> = st["memo"].as_array().unwrap().iter().map(|x| x.as_bool().unwrap()).collect();
+                    if done != want_memo {
+                        mism.push(format!("step {i}: reconstructed blocks {done:?}, specification {want_memo:?}"));
+                    }
+                    match (ans, st["answer"].as_bool().unwrap()) {
+                        (Some(bytes), true) => {
+                            if bytes != data {
+                                mism.push(format!("step {i}: wrong object {bytes:?}"));
+                            }
+                        }
+                        (None, false) => {}
+                        (a, w) => mism.push(format!("step {i}: answered {} but the specification says {}", a.is_some(), w)),
+                    }
+                }
+                Err(m) => mism.push(format!("step {i}: panic {m}")),
+            }
+            if !mism.is_empty() {
+                break;
+            }
+        }
+        if !mism.is_empty() {
+            bad += 1;
+            out.emit(json!({"case": c, "got": Value::Null, "mismatch": mism}));
+        }
+    }
+    out.finish();
+    println!("cases={n} mismatches={bad} steps={steps}");
+}
